@@ -533,6 +533,34 @@ func FTypeSwitchAll() string {
 		FTypeSwitchVar3(4) + FTypeSwitchVar3("y") + FTypeSwitchVar3(nil)
 }
 `, "FTypeSwitchAll"},
+		{"parentheses-the-printer-cannot-restore", `
+type feeds chan (<-chan int)
+
+func newFeeds() chan (<-chan int) { return make(chan (<-chan int), 1) }
+
+func FParens() string {
+	t := Thing{}
+	res := ""
+	if t == (Thing{}) {
+		res += "zero"
+	}
+	for u := (Thing{A: 1}); u != (Thing{A: 3}); u.A++ {
+		res += itoa(u.A)
+	}
+	switch t {
+	case (Thing{}):
+		res += "case"
+	}
+	f := newFeeds()
+	inner := make(chan int, 1)
+	inner <- 7
+	f <- inner
+	var g feeds = f
+	res += itoa(<-(<-g))
+	var h (func() int) = func() int { return 2 }
+	return res + itoa((h)()) + itoa(-(-3)) + itoa((1+2)*3)
+}
+`, "FParens"},
 		{"method-named-like-the-injector", `
 func (t Thing) InitThing() string { return "method" + itoa(t.A) }
 
@@ -567,7 +595,16 @@ func FLocalKinds() string {
 }
 `, "FLocalKinds"},
 		{"aliased-import-used-only-by-copied-code", `
-func FOnly() string { return only.Word + itoa(only.Twice(4)) }
+type onlyLogger struct{ Word string }
+
+func (onlyLogger) Twice(x int) int { return 3 * x }
+
+// the first mention of the package in the whole file sits next to a parameter named like the package itself
+func FOnlyFirst(onlycopied onlyLogger) string {
+	return only.Word + onlycopied.Word + itoa(only.Twice(4)) + itoa(onlycopied.Twice(4))
+}
+
+func FOnly() string { return FOnlyFirst(onlyLogger{Word: "mine"}) + only.Word + itoa(only.Twice(4)) }
 `, "FOnly"},
 		{"local-named-like-generated-import", `
 func FShadow() string {
